@@ -26,7 +26,8 @@ HEADER = ("From Coq Require Import ZArith List Floats. Import ListNotations. "
 MUO = 1.2566370614359173e-6
 FUEL = "(100*100)%nat"
 MAXPASSES = 10000
-TIME_LIMIT = 20          # seconds per GetSlopes call in the harness
+TIME_LIMIT = 10          # seconds per GetSlopes call in the harness
+MAX_TIMEOUTS = 3         # after that many non-returning tables the rest of the batch is skipped
 
 
 # --------------------------------------------------------------------- table generator ----
@@ -451,7 +452,7 @@ def compare(t, r, m):
     return worst, nb, tot
 
 
-def evaluate(ctx, tables, with_model=True):
+def evaluate(ctx, tables, with_model=True, timeouts=0):
     """Two harness passes (final knots, then samples), oracle, optional model comparison.
     Returns (failures, disagreements, stats)."""
     fails, dis = [], []
@@ -465,8 +466,8 @@ def evaluate(ctx, tables, with_model=True):
                               % (TIME_LIMIT, rc), table=t, stderr=err[-400:]))
             # the harness stops at the first time-out: run the remaining tables separately
             rest = [u for u in tables if u["id"] > t["id"]]
-            if rest and r is not None:
-                f2, d2, s2 = evaluate(ctx, rest, with_model)
+            if rest and r is not None and timeouts + 1 < MAX_TIMEOUTS:
+                f2, d2, s2 = evaluate(ctx, rest, with_model, timeouts + 1)
                 fails += f2; dis += d2
                 for k in ("values", "bit", "samples"):
                     stats[k] += s2[k]
